@@ -64,6 +64,10 @@ def s_case(draw):
                 sy = sy * (1 + draw(st.sampled_from([0.5, -0.5, 2.0])) * stol)
         else:
             sy, tyy, py, my = draw(s_axis_map(Hs, Hd, klass if draw(st.booleans()) else "shift_int", ttol, stol))
+        if klass == "scale_int" and abs(sx) == abs(sy) and abs(sx) >= 2 and draw(st.integers(0, 3)) > 0:
+            k = abs(sx)  # whole-overview-pixel translations make the shrink>1 paste situation common
+            txx = float(round(txx / k) * k) + draw(st.sampled_from([0.0, 0.0, 0.4 * ttol * k, -0.9 * ttol * k, 1.1 * ttol * k]))
+            tyy = float(round(tyy / k) * k)
         Tm = [sx, 0.0, txx, 0.0, sy, tyy]
         places, mirrors = [px, py], [mx, my]
     return {"src": {"shape": [Hs, Ws], "affine": src_aff}, "dshape": [Hd, Wd], "T": Tm, "ttol": ttol, "stol": stol, "klass": klass,
